@@ -22,6 +22,7 @@ type Ctx struct {
 	inProg  map[string]bool
 	notes   map[string]bool // abstraction notes (what was dropped/abstracted)
 	errGlobals map[string]bool
+	zarrs   map[string]string
 }
 
 type StructInfo struct {
@@ -40,7 +41,7 @@ type FieldInfo struct {
 
 func newCtx() *Ctx {
 	c := &Ctx{P: newPrelude(), sorts: map[string]string{}, structs: map[string]*StructInfo{},
-		strLits: map[string]string{}, typeTag: map[string]int{}, inProg: map[string]bool{}, notes: map[string]bool{}, errGlobals: map[string]bool{}}
+		strLits: map[string]string{}, typeTag: map[string]int{}, inProg: map[string]bool{}, notes: map[string]bool{}, errGlobals: map[string]bool{}, zarrs: map[string]string{}}
 	c.basePrelude()
 	return c
 }
@@ -80,7 +81,7 @@ func (c *Ctx) basePrelude() {
 	p.declare("dsha256", "(declare-fun dsha256 (Bytes) Bytes)")
 	p.declare("hash160", "(declare-fun hash160 (Bytes) Bytes)")
 	p.declare("le64", "(declare-fun le64 (Int) Bytes)")
-	p.axiom("blen_nonneg", []string{"blen"}, "(assert (forall ((b Bytes)) (! (and (>= (blen b) 0) (< (blen b) 9223372036854775808)) :pattern ((blen b)))))")
+	p.axiom("blen_nonneg", []string{"blen"}, "(assert (forall ((b Bytes)) (! (>= (blen b) 0) :pattern ((blen b)))))")
 	p.axiom("bempty_len", []string{"bempty"}, "(assert (= (blen bempty) 0))\n(assert (forall ((b Bytes)) (! (=> (= (blen b) 0) (= b bempty)) :pattern ((blen b)))))")
 	p.axiom("bcat_len", []string{"bcat"}, "(assert (forall ((a Bytes) (b Bytes)) (! (= (blen (bcat a b)) (+ (blen a) (blen b))) :pattern ((bcat a b)))))\n"+
 		"(assert (forall ((a Bytes)) (! (= (bcat a bempty) a) :pattern ((bcat a bempty)))))\n(assert (forall ((a Bytes)) (! (= (bcat bempty a) a) :pattern ((bcat bempty a)))))")
@@ -449,4 +450,21 @@ func wrapMod(t types.Type, x string) string {
 		return sx("-", sx("mod", sx("+", x, h), m), h)
 	}
 	return sx("mod", x, m)
+}
+
+// constArr: the constant array with every element zero. cvc5 accepts (as const ...) only for value
+// terms, so element terms that mention uninterpreted constants get a declared array with an axiom.
+func (c *Ctx) constArr(idx, elem, zero string) string {
+	if !strings.Contains(zero, "bempty") && !strings.Contains(zero, "zarr!") && !strings.Contains(zero, "bzeros") {
+		return fmt.Sprintf("((as const (Array %s %s)) %s)", idx, elem, zero)
+	}
+	key := idx + "|" + elem + "|" + zero
+	if n, ok := c.zarrs[key]; ok {
+		return n
+	}
+	n := "zarr!" + sanitize(idx+"_"+elem+"_"+zero)
+	c.zarrs[key] = n
+	c.P.declare(n, fmt.Sprintf("(declare-const %s (Array %s %s))", n, idx, elem))
+	c.P.axiom("ax_"+n, []string{n}, fmt.Sprintf("(assert (forall ((i %s)) (! (= (select %s i) %s) :pattern ((select %s i)))))", idx, n, zero, n))
+	return n
 }
